@@ -284,6 +284,9 @@ package security
 
 //@ func (*Authenticator).exchangeKey (a, ctx, negotiation) (err)
 //@   props C13 C03
+//@   nocall [C19] caller_context_threaded: context.Background
+//@   nocall [C19] caller_context_threaded2: context.WithoutCancel
+//@   nocall [C19] caller_context_threaded3: context.TODO
 //@   nocall [C04] digests_frozen_only_at_key_installation: Stream).FinalizeDigests
 //@   requires strm: a.stream != nil
 //@   ensures no_key_installed: a.stream.gcm == old(a.stream.gcm)
@@ -291,6 +294,9 @@ package security
 
 //@ func (*Authenticator).handleClientAuthentication (a, ctx, negotiation) (err)
 //@   props C03
+//@   nocall [C19] caller_context_threaded: context.Background
+//@   nocall [C19] caller_context_threaded2: context.WithoutCancel
+//@   nocall [C19] caller_context_threaded3: context.TODO
 //@   nocall [C04] digests_frozen_only_at_key_installation: Stream).FinalizeDigests
 //@   requires cfg: a.config != nil && negotiation.ServerConfig != nil && negotiation.ClientConfig != nil && a.stream != nil
 //@   preserves security.SecurityConfig security.Authenticator
@@ -306,6 +312,9 @@ package security
 
 //@ func (*Authenticator).handleServerAuthentication (a, ctx, negotiation) (err)
 //@   props C03
+//@   nocall [C19] caller_context_threaded: context.Background
+//@   nocall [C19] caller_context_threaded2: context.WithoutCancel
+//@   nocall [C19] caller_context_threaded3: context.TODO
 //@   nocall [C04] digests_frozen_only_at_key_installation: Stream).FinalizeDigests
 //@   requires cfg: a.config != nil && a.stream != nil
 //@   preserves security.SecurityConfig security.Authenticator elems$security.AuthMethod
@@ -350,6 +359,9 @@ package security
 
 //@ func (*Authenticator).handleSessionResumption (a, ctx, sessionID, clientAd, command) (result, err)
 //@   props C06
+//@   nocall [C19] caller_context_threaded: context.Background
+//@   nocall [C19] caller_context_threaded2: context.WithoutCancel
+//@   nocall [C19] caller_context_threaded3: context.TODO
 //@   requires given: a.config != nil && a.stream != nil && clientAd != nil && a.stream.gcm == nil
 //@   assert before call setupStreamEncryption #1 session_key: arg1.SessionResumed && ref(arg1.sharedSecret) == ref(entry.keyInfo.Data) && len(arg1.sharedSecret) == len(entry.keyInfo.Data) && aesName(arg1.NegotiatedCrypto)
 //@   assert before call SessionEntry).RenewLease #1 only_keyed_sessions: entry != nil && entry.keyInfo != nil && len(entry.keyInfo.Data) > 0 && aesName(entry.keyInfo.Protocol)
@@ -359,6 +371,9 @@ package security
 // ---- client-side resumption (C06, C07) -----------------------------------------------------------
 //@ func (*Authenticator).resumeSession (a, ctx, entry, cache) (result, err)
 //@   props C06 C07
+//@   nocall [C19] caller_context_threaded: context.Background
+//@   nocall [C19] caller_context_threaded2: context.WithoutCancel
+//@   nocall [C19] caller_context_threaded3: context.TODO
 //@   requires given: a.config != nil && a.stream != nil && entry != nil && cache != nil && a.stream.gcm == nil
 //@   assert before call setupStreamEncryption #1 session_key: arg1.SessionResumed && ref(arg1.sharedSecret) == ref(entry.keyInfo.Data) && len(arg1.sharedSecret) == len(entry.keyInfo.Data)
 //@   ensures dropped_on_failure: [C07] err != nil ==> result == nil && !has(cache.sessions, old(entry.id))
@@ -378,12 +393,18 @@ package security
 
 //@ func (*Authenticator).ClientHandshake (a, ctx) (result, err)
 //@   props C07 C06 C03
+//@   nocall [C19] caller_context_threaded: context.Background
+//@   nocall [C19] caller_context_threaded2: context.WithoutCancel
+//@   nocall [C19] caller_context_threaded3: context.TODO
 //@   requires given: a.config != nil && a.stream != nil && a.stream.gcm == nil
 //@   assert before call SessionCache).LookupByCommand #1 same_tag_and_server: arg1 == a.config.SecurityTag && (a.config.PeerName != "" ==> arg2 == a.config.PeerName)
 //@   assert before call Authenticator).resumeSession #2 only_routed_session: arg2 != nil
 
 //@ func (*Authenticator).performFullAuthentication (a, ctx, cache) (result, err)
 //@   props C03 C10
+//@   nocall [C19] caller_context_threaded: context.Background
+//@   nocall [C19] caller_context_threaded2: context.WithoutCancel
+//@   nocall [C19] caller_context_threaded3: context.TODO
 //@   requires given: a.config != nil && a.stream != nil && a.stream.gcm == nil && cache != nil
 //@   nocall [C04] digests_frozen_only_at_key_installation: Stream).FinalizeDigests
 //@   assert after call Authenticator).setupStreamEncryption #1 enc_decided: [C03] callres == nil ==> (a.config.Encryption == "REQUIRED" ==> sealingOn(a.stream)) && negotiation.Encryption == sealingOn(a.stream) && (sealingOn(a.stream) || a.stream.gcm == nil)
@@ -443,10 +464,16 @@ package security
 
 //@ func (*Authenticator).sendNegotiationFailureResponse (a, ctx, negotiation, negErr)
 //@   props C10
+//@   nocall [C19] caller_context_threaded: context.Background
+//@   nocall [C19] caller_context_threaded2: context.WithoutCancel
+//@   nocall [C19] caller_context_threaded3: context.TODO
 //@   requires given: a.stream != nil
 
 //@ func (*Authenticator).ServerHandshakeWithMessage (a, ctx, msg, command) (result, err)
 //@   props C03 C06 C10
+//@   nocall [C19] caller_context_threaded: context.Background
+//@   nocall [C19] caller_context_threaded2: context.WithoutCancel
+//@   nocall [C19] caller_context_threaded3: context.TODO
 //@   requires given: a.config != nil && a.stream != nil && a.stream.gcm == nil && msg != nil
 //@   assert before call Authenticator).sendNegotiationFailureResponse #1 explicit_denial: [C10] true
 //@   assert after call Authenticator).setupStreamEncryption #1 enc_decided: [C03] callres == nil ==> (negotiation.ServerConfig.Encryption == "REQUIRED" ==> sealingOn(a.stream)) && negotiation.Encryption == sealingOn(a.stream) && (sealingOn(a.stream) || a.stream.gcm == nil)
@@ -466,6 +493,9 @@ package security
 
 //@ func (*Authenticator).performFSAuthenticationClient (a, ctx, negotiation, remote) (err)
 //@   props C18
+//@   nocall [C19] caller_context_threaded: context.Background
+//@   nocall [C19] caller_context_threaded2: context.WithoutCancel
+//@   nocall [C19] caller_context_threaded3: context.TODO
 //@   requires given: a.stream != nil
 //@   assert before call os.OpenRoot #1 base_dir_only: [C18] arg0 == "/tmp"
 //@   assert before call os.Root).Mkdir #1 validated_leaf_only: [C18] arg1 == leaf && rootDir(arg0) == "/tmp"
@@ -509,6 +539,9 @@ package security
 
 //@ func (*Authenticator).receiveServerTokenStep3 (a, ctx, authData, negotiation) (err)
 //@   props C11
+//@   nocall [C19] caller_context_threaded: context.Background
+//@   nocall [C19] caller_context_threaded2: context.WithoutCancel
+//@   nocall [C19] caller_context_threaded3: context.TODO
 //@   requires given: a.stream != nil && authData != nil
 //@   assert before call Message).GetChar #1 status_ok: [C11] status == 0
 //@   assert before call Message).GetChar #1 same_client: [C11] clientID == authData.ClientID
@@ -525,6 +558,9 @@ package security
 
 //@ func (*Authenticator).receiveTokenStep2 (a, ctx, authData, negotiation) (err)
 //@   props C11
+//@   nocall [C19] caller_context_threaded: context.Background
+//@   nocall [C19] caller_context_threaded2: context.WithoutCancel
+//@   nocall [C19] caller_context_threaded3: context.TODO
 //@   requires given: a.stream != nil && authData != nil
 //@   assert before call Authenticator).verifyTokenMAC #1 server_proof_checked_against_own_values: [C11] ref(arg1) == ref(authData.SharedKeyK) && arg2 == authData.ClientID && ref(arg4) == ref(authData.RA) && len(arg4) == len(authData.RA) && ref(arg6) == ref(serverMAC) && len(arg6) == len(serverMAC)
 //@   assert before call Authenticator).verifyTokenMAC #1 own_nonce_echoed: [C11] clientIDEcho == authData.ClientID
